@@ -108,7 +108,16 @@ class Ctx:
         return body.where(line)
 
 
+import threading
+CURRENT = threading.local()      # the Ctx whose rules are running in this thread (for term predicates that need summaries)
+
+
+def current_ctx():
+    return getattr(CURRENT, 'ctx', None)
+
+
 def run_rules(ctx, rule_ids):
+    CURRENT.ctx = ctx
     outs = []
     for rid in rule_ids:
         t0 = time.time()
